@@ -309,3 +309,71 @@ impl Drop for Socket {
         let _ = self.recv_exit.take().expect("Exit always exists").send(());
     }
 }
+
+/// Verification hook: the harness side of a virtual socket.
+#[cfg(feature = "verif-hooks")]
+pub struct VirtualWire {
+    /// Datagrams to deliver to the node: (source address, bytes).
+    pub inject: mpsc::Sender<(SocketAddr, Vec<u8>)>,
+    /// Datagrams emitted by the node: (destination address, destination node id, bytes).
+    pub outbound: mpsc::UnboundedReceiver<(SocketAddr, enr::NodeId, Vec<u8>)>,
+    /// The exemption map shared between the handler and the receive path.
+    pub expected_responses: Arc<RwLock<HashMap<SocketAddr, usize>>>,
+}
+
+#[cfg(feature = "verif-hooks")]
+impl Socket {
+    pub(crate) async fn new_virtual(config: SocketConfig) -> Result<(Self, VirtualWire), Error> {
+        let SocketConfig {
+            executor,
+            filter_config,
+            listen_config: _,
+            ban_duration,
+            expected_responses,
+            local_node_id,
+            protocol_identity,
+        } = config;
+        // The receive handler keeps a socket handle; it is never read in virtual mode.
+        let dummy = Arc::new(UdpSocket::bind((Ipv4Addr::LOCALHOST, 0)).await?);
+        let (inject, inject_rx) = mpsc::channel(1024);
+        let recv_config = RecvHandlerConfig {
+            filter_config,
+            executor: executor.clone(),
+            recv: dummy,
+            second_recv: None,
+            local_node_id,
+            protocol_identity,
+            expected_responses: expected_responses.clone(),
+            ban_duration,
+        };
+        let (recv, recv_exit) = RecvHandler::spawn_virtual(recv_config, inject_rx).await?;
+        let (send, mut send_rx) = mpsc::channel::<OutboundPacket>(30);
+        let (outbound_tx, outbound) = mpsc::unbounded_channel();
+        let (sender_exit, mut exit) = oneshot::channel();
+        executor.spawn(Box::pin(async move {
+            loop {
+                tokio::select! {
+                    Some(packet) = send_rx.recv() => {
+                        let bytes = packet.packet.encode(&packet.node_address.node_id);
+                        let _ = outbound_tx.send((packet.node_address.socket_addr, packet.node_address.node_id, bytes));
+                    }
+                    _ = &mut exit => return,
+                    else => return,
+                }
+            }
+        }));
+        Ok((
+            Socket {
+                send,
+                recv,
+                sender_exit: Some(sender_exit),
+                recv_exit: Some(recv_exit),
+            },
+            VirtualWire {
+                inject,
+                outbound,
+                expected_responses,
+            },
+        ))
+    }
+}
